@@ -889,6 +889,34 @@ func (e *SpecEnv) call(x *ECall) Val {
 		v := e.eval(x.Args[0])
 		k := HeapKey{"CH$closed", "(Array Int Bool)"}
 		return boolVal(sx("select", e.heapRead(k), v.s()))
+	case "sent", "recvd":
+		// sent(ch) / recvd(ch): number of completed sends / receives on the channel (message log model)
+		v := e.eval(x.Args[0])
+		k := chSentN
+		if id.Name == "recvd" {
+			k = chRecvN
+		}
+		return Val{T: MathInt, C: []string{sx("select", e.heapRead(k), v.s())}}
+	case "lastsend", "lastrecv":
+		// index (in the channel's message log) of this function's latest send / receive
+		k := chLastSend
+		if id.Name == "lastrecv" {
+			k = chLastRecv
+		}
+		return Val{T: MathInt, C: []string{e.heapRead(k)}}
+	case "msg":
+		// msg(ch, k): the k-th value ever sent on ch
+		v := e.eval(x.Args[0])
+		ct, ok := v.T.Underlying().(*types.Chan)
+		if !ok {
+			sfail("msg() of non-channel")
+		}
+		idx := e.eval(x.Args[1])
+		out := Val{T: ct.Elem()}
+		for _, c := range e.mode().comps(ct.Elem()) {
+			out.C = append(out.C, sx("select", sx("select", e.heapRead(chMsgKey(ct.Elem(), c)), v.s()), idx.s()))
+		}
+		return out
 	case "typeis":
 		// typeis(x, T): dynamic type of interface x is T
 		v := e.eval(x.Args[0])
